@@ -170,3 +170,102 @@ Proof.
     rewrite (pm1_sq tm Hm), Rmult_1_r. apply Rabs_pm1. apply Ht. }
   numR. rewrite !Habs by apply Hlt. reflexivity.
 Qed.
+
+(* ---- one grain ---------------------------------------------------------------------------- *)
+Definition flip_related (sa sb sc : R) (r r' : res (arr R * R)) : Prop :=
+  match r, r' with
+  | Ok (Ad, E), Ok (Ad', E') => E' = E /\ forall k, (k < 9)%nat -> Ad' k = flip sa sb sc Ad k
+  | Err e, Err e' => e = e'
+  | _, _ => False
+  end.
+
+Lemma Reqb_pm1 t x : pm1 t -> Reqb (t * x) 0 = Reqb x 0.
+Proof.
+  intros Ht. destruct (Reqb x 0) eqn:H; bool2prop.
+  - subst x. apply Reqb_true. ring.
+  - apply Reqb_false. intro Hc. apply H. destruct Ht as [-> | ->]; lra.
+Qed.
+
+Lemma all_zero4_flip sa sb sc (D A : arr R) : pm1 sa -> pm1 sb -> pm1 sc ->
+  @all_zero4 NumR (@spec_invariants NumR D (flip sa sb sc A)) = @all_zero4 NumR (@spec_invariants NumR D A).
+Proof.
+  intros Ha Hb Hc. rewrite invariants_flip. unfold all_zero4, spec_invariants. cbv [mk_arr nth]. numR.
+  rewrite !Reqb_pm1 by (apply pm1_mul; assumption). reflexivity.
+Qed.
+
+Lemma zeros_flip sa sb sc k : (k < 9)%nat -> @zeros9s NumR k = flip sa sb sc (@zeros9s NumR) k.
+Proof.
+  intros Hk. do 9 (destruct k as [|k]; [cbv [zeros9s flip mk_arr nth]; numR; ring|]). lia.
+Qed.
+
+(* the common tail of the olivine and enstatite branches: given beta' = t_s t_m beta *)
+Lemma tail_flip sa sb sc tau (A L b b' : arr R) P tm p n lam :
+  pm1 sa -> pm1 sb -> pm1 sc -> pm1 tm ->
+  (forall s, (s < 4)%nat -> b' s = tsgn sa sb sc s * tm * b s) ->
+  let G := @spec_schmid NumR A b in let G' := @spec_schmid NumR (flip sa sb sc A) b' in
+  let g := @spec_gamma0 NumR G L in let g' := @spec_gamma0 NumR G' L in
+  @spec_energy NumR tau b' P g' p n lam = @spec_energy NumR tau b P g p n lam /\
+  forall k, (k < 9)%nat -> @spec_rate NumR (flip sa sb sc A) G' L g' k = flip sa sb sc (@spec_rate NumR A G L g) k.
+Proof.
+  intros Ha Hb Hc Hm Hbeta G G' g g'.
+  assert (HG : forall k, (k < 9)%nat -> G' k = tm * G k).
+  { intros k Hk. subst G G'.
+    rewrite <- (schmid_flip sa sb sc A b tm k Ha Hb Hc Hk).
+    unfold spec_schmid. cbv zeta.
+    rewrite (Hbeta 0%nat), (Hbeta 1%nat), (Hbeta 2%nat), (Hbeta 3%nat) by lia. reflexivity. }
+  assert (Hg : g' = tm * g) by (subst g g'; apply gamma0_scale; assumption).
+  split.
+  - rewrite Hg. apply (energy_flip tau (tsgn sa sb sc)); try assumption. apply tsgn_pm1; assumption.
+  - intros k Hk. apply rate_flip; [|exact Hk]. rewrite Hg. apply spin_scale; assumption.
+Qed.
+
+Lemma beta_ext tau (inv1 inv2 : arr R) P n s :
+  inv1 s = inv2 s -> inv1 (pidx P 3) = inv2 (pidx P 3) ->
+  @spec_beta NumR tau inv1 P n s = @spec_beta NumR tau inv2 P n s.
+Proof. intros H1 H2. unfold spec_beta. rewrite H1, H2. reflexivity. Qed.
+
+Lemma pidx_lt P i : (pidx P i < 4)%nat.
+Proof. destruct P; destruct i as [|[|[|[|[|i]]]]]; cbv [pidx perm4_list nth]; lia. Qed.
+
+Lemma tau_table_olivine fb tau : tau_table 0 fb = Some tau -> olivine_tau tau.
+Proof.
+  unfold tau_table, olivine_tau, tauA, tauB, tauC, tauD, tauE.
+  destruct fb as [|[[|[]|]|[[]|[]|]|]|]; intros H; inversion H; auto 6.
+Qed.
+
+Theorem spec_grain_flip ph fb sa sb sc (A D L : arr R) p n lam :
+  pm1 sa -> pm1 sb -> pm1 sc ->
+  flip_related sa sb sc (@spec_grain NumR ph fb A D L p n lam)
+                        (@spec_grain NumR ph fb (flip sa sb sc A) D L p n lam).
+Proof.
+  intros Ha Hb Hc. unfold spec_grain. destruct (tau_table ph fb) as [tau|] eqn:Htau; [|reflexivity].
+  rewrite (all_zero4_flip sa sb sc D A Ha Hb Hc).
+  set (inv := @spec_invariants NumR D A). set (inv' := @spec_invariants NumR D (flip sa sb sc A)).
+  assert (Hinv : forall k, (k < 4)%nat -> inv' k = tsgn sa sb sc k * inv k).
+  { intros k Hk. subst inv inv'. rewrite invariants_flip. unfold spec_invariants.
+    do 4 (destruct k as [|k]; [reflexivity|]). lia. }
+  destruct (all_zero4 inv); [split; [reflexivity|apply zeros_flip]|].
+  destruct (Z.eqb_spec ph 0) as [->|Hph].
+  - (* olivine *)
+    subst inv'. rewrite (activities_flip sa sb sc tau D A Ha Hb Hc). fold inv.
+    destruct (all_zero4 (spec_activities tau inv)) eqn:Hq; [split; [reflexivity|apply zeros_flip]|].
+    set (P := argsort4 (spec_activities tau inv)).
+    destruct (imax_facts tau inv (tau_table_olivine fb tau Htau) Hq) as [Hm _]. fold P in Hm.
+    cbv zeta.
+    apply (tail_flip sa sb sc tau A L _ _ P (tsgn sa sb sc (pidx P 3)) p n lam Ha Hb Hc
+             (tsgn_pm1 sa sb sc Ha Hb Hc _)).
+    intros s Hs.
+    assert (Hb' : @spec_beta NumR tau (@spec_invariants NumR D (flip sa sb sc A)) P n s
+                  = tsgn sa sb sc s * tsgn sa sb sc (pidx P 3) * @spec_beta NumR tau inv P n s).
+    { rewrite <- (beta_flip (tsgn sa sb sc) tau inv P n s (tsgn_pm1 sa sb sc Ha Hb Hc) Hm).
+      apply beta_ext; apply Hinv; [exact Hs | apply pidx_lt]. }
+    unfold spec_beta_arr. do 4 (destruct s as [|s]; [exact Hb'|]). lia.
+  - (* enstatite *)
+    cbv zeta.
+    apply (tail_flip sa sb sc tau A L _ _ P0123 (tsgn sa sb sc 3) p n lam Ha Hb Hc (tsgn_pm1 sa sb sc Ha Hb Hc _)).
+    intros s Hs. rewrite (Hinv 3%nat) by lia. numR.
+    rewrite (Rabs_pm1 _ _ (tsgn_pm1 sa sb sc Ha Hb Hc 3%nat)).
+    pose proof (pm1_sq _ (tsgn_pm1 sa sb sc Ha Hb Hc 3%nat)) as Hsq.
+    destruct s as [|[|[|[|s]]]]; try lia; cbv [mk_arr nth]; try ring.
+    rewrite Hsq. ring.
+Qed.
